@@ -967,6 +967,18 @@ func genOps(prop string, r *Rng, n int, tier string, emit func(string)) {
 			emit(fmt.Sprintf("enumstr.Chunk %d", c))
 		}
 	case "C18":
+		{ // deterministic items: XR blocks whose thinning value does not fit the four bits it is sent in
+			for _, t := range []uint8{0x1C, 0xF3, 0x10, 0x0F} {
+				l := &rtcp.LossRLEReportBlock{}
+				l.T, l.SSRC, l.Chunks = t, uint32(r.Bits(32, 32)), []rtcp.Chunk{1, 2}
+				d := &rtcp.DuplicateRLEReportBlock{}
+				d.T, d.Chunks = t, []rtcp.Chunk{3, 4}
+				pr := &rtcp.PacketReceiptTimesReportBlock{}
+				pr.T, pr.ReceiptTime = t, []uint32{5}
+				x := &rtcp.ExtendedReport{SenderSSRC: 1, Reports: []rtcp.ReportBlock{l, d, pr}}
+				emit(fmt.Sprintf("hist %s 4 M S M D", packetTokens(x)))
+			}
+		}
 		for i := 0; i < n; i++ {
 			k := allKinds[r.Intn(len(allKinds))]
 			p := genValue(r, k, r.Chance(1, 6))
